@@ -174,6 +174,9 @@ static void run_case(Ctx &c) {
             idx.push_back(0); idx.push_back(1); idx.push_back(2);
             for (int j = 0; j < nidx; j++) idx.push_back(r.chance(0.5) ? (long)r.u(101) : (long)r.u(maxidx + 1));
             for (long i : idx) c.check(D.sd.positionAt((ndsize_t)i) == D.ax.x(i), "C07/harness/axis-model", [&] { return D.ax.describe() + " positionAt(" + str(i) + ")=" + hexd(D.sd.positionAt((ndsize_t)i)) + " model=" + hexd(D.ax.x(i)); });
+            // axis(count, start) reports the same coordinates x_start .. x_start+count-1, bit for bit (a coordinate that is off by one ulp no longer converts back to its index)
+            for (int q = 0; q < 4; q++) { ndsize_t st = q == 0 ? 0 : (ndsize_t)r.u(q == 1 ? 4 : 300), cn = 1 + (ndsize_t)r.u(40); std::vector<double> axv = D.sd.axis(cn, st); bool okx = axv.size() == cn; size_t bad = 0; for (size_t k = 0; okx && k < axv.size(); k++) if (axv[k] != D.ax.x((long)(st + k))) { okx = false; bad = k; }
+                c.check(okx, "C07/coordinates/sampled-axis", [&] { return D.ax.describe() + " axis(" + str((long)cn) + "," + str((long)st) + ")[" + str((long)bad) + "] = " + (bad < axv.size() ? hexd(axv[bad]) : std::string("-")) + ", coordinate x_" + str((long)(st + bad)) + " = " + hexd(D.ax.x((long)(st + bad))); }); }
             c.fp("S" + hexd(D.ax.dt) + "/" + hexd(D.ax.off));
         } else if (kind == Axis::Range) {
             long n = r.chance(0.2) ? (long)r.range(1, 3) : (long)r.range(4, 200);
